@@ -9,6 +9,7 @@ R3 a value that was range-checked against a constant upper bound is never
    masked with a narrower mask afterwards (a later check on the masked value
    could not fail: out-of-range operands would be emitted truncated)
 R4 distance checks of relative branches are symmetric two's-complement windows
+R5 no generator consumes a shared scratch variable only other targets assign
 """
 import glob, os
 from core import *
@@ -164,6 +165,10 @@ def run(chk, facts, info):
     c15.rule_fold(chk, facts, rule='C14-R2', units=None)
     rule_r3(chk, facts)
     rule_r4(chk, facts)
+    chk.rule('C14-R5', 'each of the seven code generators reads a core scratch variable that code generators write '
+             '(AdrCnt, CodeLen, BAsmCode, ...) only if the module itself or a core module assigns it: an encoding must '
+             'not be built from what another target\'s generator left behind', min_instances=40)
+    foreign_scratch_rule(chk, facts.program('asl'), 'C14-R5', only=set(FILES), min_instances=900)
     chk.note('Decided: table-driven opcode constants against the ISA references, sign-extension thresholds, mask vs '
              'range-check agreement, distance windows. Not decided: fields composed in handler code, operand encodings '
              'per addressing mode.')
